@@ -54,7 +54,11 @@ class Prov:
                     it = n.iter
                     if isinstance(it, ast.Call) and isinstance(it.func, ast.Attribute) and it.func.attr == "finditer":
                         # re.compile(P).finditer(TEXT) / re.finditer(P, TEXT)
-                        txt = it.args[0] if dotted(it.func.value) not in ("re", "regex") and it.args else (it.args[1] if len(it.args) > 1 else None)
+                        recv_ = dotted(it.func.value)
+                        local_names = {x.id for x in walk_local(self.fn) if isinstance(x, ast.Name) and isinstance(x.ctx, ast.Store)} | {
+                            a.arg for a in self.fn.args.args + self.fn.args.kwonlyargs}
+                        is_module = recv_ in ("re", "regex") and recv_ not in local_names  # a local called `regex` is a compiled pattern
+                        txt = it.args[0] if not is_module and it.args else (it.args[1] if len(it.args) > 1 else None)
                         if txt is not None and self.kind(txt) == "SRC" and isinstance(n.target, ast.Name):
                             self.match.add(n.target.id)
                     continue
